@@ -215,11 +215,18 @@ def subscript_harness(which, record=None):
     return harness
 
 
-def neutral(it, result, label_obj=None):
-    """ghost reference counts at exit: +1 exactly for the returned object (if any), 0 for everything else"""
+def neutral(it, result, label_obj=None, new_structs=()):
+    """ghost reference counts at exit: +1 exactly for the returned object (if any), +1 per pointer field of a trait record
+    created during the call (the new object legitimately owns what its fields point to), 0 for everything else"""
     bad = []
+    held = {}
+    for st_ in new_structs:
+        for f_, v_ in st_.f.items():
+            if f_ in ("pyobj", "pytype") or v_ is NULL or v_ is None or isinstance(v_, (int, FnPtr)) and not isinstance(v_, bool):
+                continue
+            held[id(v_)] = held.get(id(v_), 0) + 1
     for oid, (o, d) in it.st.rc.items():
-        want = 1 if (result is not NULL and o is result) else 0
+        want = (1 if (result is not NULL and o is result) else 0) + held.get(oid, 0)
         if d != want:
             bad.append("%s: delta %+d (expected %+d)" % (type(o).__name__ if not symx.is_proxy(o) else repr(o), d, want))
     return bad
@@ -404,6 +411,66 @@ def property_harness(ex):
     return {"prop": name, "op": op}
 
 
+class _Tgt(HasTraits):
+    x = Int(1)
+
+
+class _Del(HasTraits):
+    t = Instance(_Tgt)
+    x = __import__("traits.api", fromlist=["DelegatesTo"]).DelegatesTo("t")
+    broken = __import__("traits.api", fromlist=["DelegatesTo"]).DelegatesTo("nothing_here", listenable=False)
+    plain = Int(3)
+    prop = Property(Int, observe="plain")
+
+    def _get_prop(self):
+        return self.plain
+
+
+def trait_lookup_harness(ex):
+    """_has_traits_trait (what HasTraits._trait / trait() / base_trait() call) for every `instance` mode, incl. delegate
+    resolution with a missing / None / non-HasTraits delegate; and trait_property_changed"""
+    o = _Del()
+    state = ex.choice("delegate", 3)       # 0: a proper delegate, 1: None, 2: a delegate that lacks the attribute
+    if state == 0:
+        o.t = _Tgt()
+    name = ["x", "broken", "plain", "undeclared"][ex.choice("name", 4)]
+    which = ex.choice("function", 2)
+    it = cenv.new_interp()
+    os_ = cenv.hastraits_struct(it, o)
+    it.st.rc.clear()
+    pre_traits = set()
+    for dct in (o._class_traits(), o._instance_traits()):
+        pre_traits.update(id(v) for v in dct.values())
+    problem = None
+    r = NULL
+    try:
+        with cenv.python_side_env():
+            if which == 0:
+                inst = ex.int("instance", -3, 3)
+                r = it.call("_has_traits_trait", [os_, (name, inst)])
+                if r is NULL and it.st.err is None:
+                    problem = "NULL without an exception"
+            else:
+                o.on_trait_change(lambda: None, "prop")
+                os_ = cenv.hastraits_struct(it, o)
+                it.st.rc.clear()
+                rc = it.call("trait_property_changed", [os_, "prop" if name != "undeclared" else "undeclared", 1,
+                                                        NULL if ex.flag("new_value_null") else 2])
+                if rc != 0 and it.st.err is None:
+                    problem = "-1 without an exception"
+    except MemSafety as e:
+        problem = str(e)
+    ex.check(problem is None, "trait look-up / property-changed paths are memory-safe")
+    if problem is None:
+        # an instance trait cloned by get_trait(instance=2) legitimately owns what its fields point to
+        import traits.ctraits as _ctm
+        fresh = [s_ for (obj_, s_) in it.__dict__.get("_trait_cache", {}).values()
+                 if isinstance(obj_, _ctm.cTrait) and id(obj_) not in pre_traits]
+        bad = [b for b in neutral(it, r, new_structs=fresh)]
+        ex.check(not bad, "trait look-up / property-changed paths are reference-neutral on success and on every error exit")
+    return {"name": name}
+
+
 def notify_mutation_harness(ex):
     """a handler that removes itself (or adds another one) while call_notifiers is dispatching"""
     trait_level = ex.flag("trait_level_handler_too")
@@ -514,6 +581,9 @@ def obligations(tier, build):
     obs.append(Obligation("access/notify-list-mutation", notify_mutation_harness, stubs=STUBS, witness_every=0,
                           bounds={"handlers": 3, "mutation": "self-removal / removal of the next / addition, during dispatch"},
                           leverage="choice feasibility only"))
+    obs.append(Obligation("access/trait-lookup", trait_lookup_harness, stubs=STUBS, witness_every=0,
+                          bounds={"instance mode": "symbolic Int in [-3, 3]", "delegate": "proper / None / attribute missing"},
+                          leverage="the instance mode; otherwise choice feasibility"))
     obs.append(Obligation("access/property", property_harness, stubs=STUBS, witness_every=0,
                           bounds={"getter/setter arities": "0-3", "validated property": "yes", "operations": "read, write, delete, invalid value, failing setter"},
                           leverage="choice feasibility only"))
